@@ -896,7 +896,10 @@ func (x *Exec) loopHead(st *State, fr *Frame, b *ssa.BasicBlock, pred *ssa.Basic
 		}
 		if spec != nil {
 			for _, c := range spec.Invariants {
-				g := x.evalBool(env, c.E)
+				g, ok := x.specBool(env, c.E, "inv:"+tag+":"+labelOr(c, "inv"))
+				if !ok {
+					continue
+				}
 				x.oblige(st, "inv-preserved", tag+":"+labelOr(c, "inv"), g, c.Src, fmt.Sprintf("%s:%d", c.File, c.Line))
 			}
 			if spec.Decreases != nil {
@@ -911,7 +914,10 @@ func (x *Exec) loopHead(st *State, fr *Frame, b *ssa.BasicBlock, pred *ssa.Basic
 	}
 	if spec != nil {
 		for _, c := range spec.Invariants {
-			g := x.evalBool(env, c.E)
+			g, ok := x.specBool(env, c.E, "inv:"+tag+":"+labelOr(c, "inv"))
+			if !ok {
+				continue
+			}
 			x.oblige(st, "inv-entry", tag+":"+labelOr(c, "inv"), g, c.Src, fmt.Sprintf("%s:%d", c.File, c.Line))
 		}
 	}
@@ -936,7 +942,9 @@ func (x *Exec) loopHead(st *State, fr *Frame, b *ssa.BasicBlock, pred *ssa.Basic
 	env.loopHead = true
 	if spec != nil {
 		for _, c := range spec.Invariants {
-			st.assume(x.evalBool(env, c.E))
+			if g, ok := x.specBool(env, c.E, "inv:"+tag+":"+labelOr(c, "inv")); ok {
+				st.assume(g)
+			}
 		}
 		if spec.Decreases != nil {
 			st.ghost[decKey] = x.evalInt(env, spec.Decreases.E)
